@@ -4,6 +4,7 @@
 # On success copies it to /verif/seeded/<ID>-<k>/ (patch.diff, demo.rs, meta.json skeleton).
 ID=$1; K=$2
 SRC=/tmp/mut/$ID-out
+NOTES=$SRC/NOTES.md; [ "$K" -ge 3 ] && NOTES=$SRC/NOTES2.md
 WT=/tmp/mut/validate-$ID-$K
 export CARGO_NET_OFFLINE=true CARGO_TARGET_DIR=/tmp/mut/validate-target
 [ -f "$SRC/mutant$K.diff" ] && [ -f "$SRC/demo$K.rs" ] || { echo "missing deliverables for $ID $K"; exit 2; }
@@ -13,7 +14,7 @@ trap cleanup EXIT
 cd "$WT" || exit 2
 mkdir -p tests && cp "$SRC/demo$K.rs" tests/seeddemo.rs
 FEAT=""; grep -q 'feature = "unstable"' tests/seeddemo.rs && FEAT="--features unstable"
-grep -q "unstable" "$SRC/NOTES.md" 2>/dev/null && FEAT="--features unstable"
+grep -q "unstable" "$NOTES" 2>/dev/null && FEAT="--features unstable"
 # demo on the original code: must pass
 if ! cargo test --offline $FEAT --test seeddemo >/tmp/mut/validate-$ID-$K.orig.log 2>&1; then echo "FAIL: demo does not pass on the original code"; tail -15 /tmp/mut/validate-$ID-$K.orig.log; exit 1; fi
 if ! git apply --whitespace=nowarn "$SRC/mutant$K.diff"; then echo "FAIL: patch does not apply"; exit 1; fi
@@ -22,5 +23,5 @@ case "$BASE" in *"72 passed; 0 failed"*) ;; *) echo "FAIL: baseline with mutant:
 if cargo test --offline $FEAT --test seeddemo >/tmp/mut/validate-$ID-$K.mut.log 2>&1; then echo "FAIL: demo passes with the mutant applied"; exit 1; fi
 grep -qE "test result: FAILED|panicked" /tmp/mut/validate-$ID-$K.mut.log || { echo "FAIL: demo did not run to a test failure (compile error?)"; tail -15 /tmp/mut/validate-$ID-$K.mut.log; exit 1; }
 DEST=/verif/seeded/$ID-$K
-mkdir -p "$DEST" && cp "$SRC/mutant$K.diff" "$DEST/patch.diff" && cp "$SRC/demo$K.rs" "$DEST/demo.rs" && cp "$SRC/NOTES.md" "$DEST/agent-notes.md"
+mkdir -p "$DEST" && cp "$SRC/mutant$K.diff" "$DEST/patch.diff" && cp "$SRC/demo$K.rs" "$DEST/demo.rs" && cp "$NOTES" "$DEST/agent-notes.md"
 echo "OK: $ID-$K confirmed (baseline: $BASE; demo fails with mutant, passes without) features='$FEAT'"
